@@ -669,9 +669,15 @@ class SugarGen(Gen):
                         head["include_if"] = "FALSE"
                     self.tree.append(("block", head, body))
                 if include(head):
-                    self.info[bid] = self.new_info("block")
-                    self.order.append(bid)
-                    self.prev = bid
+                    key = bid
+                    if r.random() < 0.2:
+                        # a block / loop nobody names: only the row written next can leave it (blank `from`)
+                        head["row_id"] = ""
+                        key = "\0" + bid
+                    self.info[key] = self.new_info("block")
+                    if key == bid:
+                        self.order.append(bid)
+                    self.prev = key
         return self.tree
 
 
